@@ -15,6 +15,9 @@ type query struct {
 	run  func(q *quadtree.Quadtree, yield func()) []orb.Pointer
 }
 
+// sharedLimit is read by every thread's queries; nobody may write to it.
+var sharedLimit = []float64{1.5}
+
 var qpoints = []orb.Point{{1.5, 1.5}, {4.5, 2}, {2, 2}}
 
 func menu() []query {
@@ -47,6 +50,17 @@ func menu() []query {
 		query{"KNearest(nil,[1.5 1.5],300)", func(q *quadtree.Quadtree, y func()) []orb.Pointer { return q.KNearest(nil, qpoints[0], 300) }},
 		query{"KNearestMatching(nil,[4.5 2],5000,even)", func(q *quadtree.Quadtree, y func()) []orb.Pointer {
 			return q.KNearestMatching(nil, qpoints[1], 5000, even(y))
+		}},
+	)
+	// the distance limit passed as a slice all callers share (the variadic parameter then aliases it)
+	m = append(m,
+		query{"KNearest(nil,[1.5 1.5],2,shared limit 1.5)", func(q *quadtree.Quadtree, y func()) []orb.Pointer {
+			res := q.KNearest(nil, qpoints[0], 2, sharedLimit...)
+			if sharedLimit[0] != 1.5 {
+				sharedLimit[0] = 1.5
+				panic("a k-nearest query wrote to the caller's distance-limit slice")
+			}
+			return res
 		}},
 	)
 	// a distance limit whose box covers the whole tree, with more matches than k (the search box then shrinks
